@@ -37,6 +37,10 @@ pub struct Case {
     pub faults: Vec<Fault>,
     /// use the recording SpyAead row (only meaningful when the suite's AEAD is ChaCha20Poly1305)
     pub spy: bool,
+    /// context-level comparison of the allocating and the in-place forms at this sequence position
+    /// (hook), including the calls made after the context has been exhausted
+    #[serde(default)]
+    pub ctx_pos: Option<u64>,
 }
 
 pub struct P;
@@ -53,7 +57,75 @@ fn spy_view(v: Vec<SpyRec>) -> Vec<(bool, Vec<u8>, Vec<u8>, usize, bool)> {
     v.into_iter().map(|r| (r.enc, r.nonce, r.aad, r.len, r.ok)).collect()
 }
 
+/// Two sender contexts and two receiver contexts built from identical inputs and placed at the same
+/// sequence position: the allocating forms on one pair, the in-place forms on the other, through a
+/// short script that runs past exhaustion when the position is 2^64-1. Results must agree step by step.
+fn check_ctx_forms(case: &Case, pos: u64, obs: &mut Obs) -> Verdict {
+    let sess = &case.sess;
+    let d = row(case);
+    if !sess.suite.aead.sealing() {
+        return Verdict::Pass;
+    }
+    let keys = sess.keys();
+    let nt = sess.suite.aead.nt();
+    let mk = || -> Result<(Box<dyn crate::suite::DynSender>, Box<dyn crate::suite::DynReceiver>), Verdict> {
+        let (enc, mut s) = honest_sender(d, sess, &keys)?;
+        let mut r = honest_receiver(d, sess, &keys, &enc)?;
+        s.set_seq(pos);
+        r.set_seq(pos);
+        Ok((s, r))
+    };
+    let (mut sa, mut ra) = match mk() {
+        Ok(x) => x,
+        Err(v) => return v,
+    };
+    let (mut sb, mut rb) = match mk() {
+        Ok(x) => x,
+        Err(v) => return v,
+    };
+    obs.label("context-forms-at-position");
+    let mut last_ct: Option<Vec<u8>> = None;
+    for round in 0..4 {
+        // seal: allocating on A, in-place on B
+        let a = sa.seal(&case.pt, &case.aad);
+        let mut buf = case.pt.0.clone();
+        let b = sb.seal_in_place(&mut buf, &case.aad).map(|tag| {
+            let mut c = buf.clone();
+            c.extend_from_slice(&tag);
+            c
+        });
+        obs.inner_checks += 2;
+        ensure!(a == b, "C14/ctx/seal-forms-differ", "round {} at position {}: seal gave {:?} but seal_in_place_detached gave {:?}", round, pos, a.as_ref().map(|c| hex_short(c)), b.as_ref().map(|c| hex_short(c)));
+        if b.is_err() {
+            ensure!(buf == case.pt.0 || b != Err(hpke::HpkeError::MessageLimitReached), "C14/ctx/seal-in-place-buffer", "seal_in_place_detached refused with MessageLimitReached but modified the buffer");
+        }
+        // what is delivered: the fresh ciphertext, or (once the sender is exhausted) a replay of the last one
+        let ct = match (&a, &last_ct) {
+            (Ok(c), _) => c.clone(),
+            (Err(_), Some(c)) => c.clone(),
+            (Err(_), None) => break,
+        };
+        last_ct = Some(ct.clone());
+        let x = ra.open(&ct, &case.aad);
+        let split = ct.len() - nt;
+        let mut body = ct[..split].to_vec();
+        let y = rb.open_in_place(&mut body, &case.aad, &ct[split..]);
+        match (&x, &y) {
+            (Ok(p), Ok(())) => ensure!(p == &body, "C14/ctx/open-forms-differ", "round {} at position {}: open returned {} but open_in_place_detached left {}", round, pos, hex_short(p), hex_short(&body)),
+            (Err(e1), Err(Fail::Hpke(e2))) => ensure!(e1 == e2, "C14/ctx/open-forms-differ", "round {} at position {} (+{}): open failed with {:?} but open_in_place_detached with {:?}", round, pos, round, e1, e2),
+            (x, y) => return Verdict::fail("C14/ctx/open-forms-differ", format!("round {} at position {} (+{}): open gave {:?} but open_in_place_detached gave {:?} for the same ciphertext/tag split", round, pos, round, x.as_ref().map(|p| p.len()), y)),
+        }
+    }
+    Verdict::Pass
+}
+
 fn check(case: &Case, obs: &mut Obs) -> Verdict {
+    if let Some(pos) = case.ctx_pos {
+        let v = check_ctx_forms(case, pos, obs);
+        if v != Verdict::Pass {
+            return v;
+        }
+    }
     let sess = &case.sess;
     let suite_ = sess.suite;
     let d = row(case);
@@ -242,7 +314,7 @@ impl Property for P {
     fn rule(&self) -> String {
         "Generated: (suite of 48 or the recording SpyAead row, mode, session inputs, RNG stream, pt, aad, 0..=2 faults from {small-order recipient key, small-order encapsulated key, tampered bit, short ciphertext (0..Nt+1 bytes), wrong info, wrong aad}; two faults exercise the precedence between failure paths). \
          Swept: 48x4 cells x {no fault, tamper, short}; all 14 small-order keys x 4 modes alone and combined with a short ciphertext. \
-         Oracle: with identical RNG streams single_shot_seal == setup_sender;seal in enc, ciphertext, error and bytes drawn (likewise in-place: buffer and tag); single_shot_open[_in_place_detached] == setup_receiver;open[...] in result and error; seal(pt) == in-place body || tag; open(c||t) Ok(p) iff open_in_place(c,t) Ok leaving p; with SpyAead the recorded (nonce, aad, len) of both routes are identical. \
+         Oracle: with identical RNG streams single_shot_seal == setup_sender;seal in enc, ciphertext, error and bytes drawn (likewise in-place: buffer and tag); single_shot_open[_in_place_detached] == setup_receiver;open[...] in result and error; seal(pt) == in-place body || tag; open(c||t) Ok(p) iff open_in_place(c,t) Ok leaving p — also on contexts placed at a sequence position through the hook and driven past exhaustion (30% of the cases; positions 2^64-1-d swept for every suite x mode); with SpyAead the recorded (nonce, aad, len) of both routes are identical. \
          Non-trivial: a failure path, or non-empty info != aad."
             .into()
     }
@@ -259,14 +331,15 @@ impl Property for P {
             1 => Just(Fault::WrongInfo),
             1 => Just(Fault::WrongAad),
         ];
-        (gen::session_any(), gen::bytes(400), gen::bytes(200), proptest::collection::vec(fault, 0..=2), any::<bool>())
-            .prop_map(|(mut sess, pt, aad, mut faults, spy)| {
+        let ctx_pos = proptest::option::weighted(0.3, prop_oneof![2 => (0u64..4).prop_map(|d| u64::MAX - d), 1 => gen::position()]);
+        (gen::session_any(), gen::bytes(400), gen::bytes(200), proptest::collection::vec(fault, 0..=2), any::<bool>(), ctx_pos)
+            .prop_map(|(mut sess, pt, aad, mut faults, spy, ctx_pos)| {
                 faults.retain(|f| *f != Fault::None);
                 // the small-order faults only exist for X25519: steer those cases there
                 if faults.iter().any(|f| matches!(f, Fault::SmallOrderRecipient { .. } | Fault::SmallOrderEnc { .. })) {
                     sess.suite.kem = KemId::X25519;
                 }
-                Case { sess, pt, aad, faults, spy }
+                Case { sess, pt, aad, faults, spy, ctx_pos }
             })
             .boxed()
     }
@@ -277,17 +350,17 @@ impl Property for P {
         let mut cells = Vec::new();
         for (s, m) in gen::all_cells(&Suite::all48()) {
             for (k, fault) in [Fault::None, Fault::Tamper { pos: 40000 }, Fault::Short { keep: 15 }].into_iter().enumerate() {
-                cells.push(Case { sess: gen::cell_session(s, m, 14), pt: Bytes(gen::fill(33, 5, 14)), aad: Bytes(gen::fill(9, 5, 15)), faults: vec![fault], spy: k == 0 && m == 1 });
+                cells.push(Case { sess: gen::cell_session(s, m, 14), pt: Bytes(gen::fill(33, 5, 14)), aad: Bytes(gen::fill(9, 5, 15)), faults: vec![fault], spy: k == 0 && m == 1, ctx_pos: if k == 0 { Some(u64::MAX - m as u64) } else { None } });
             }
         }
         let mut so = Vec::new();
         for idx in 0..14u8 {
             for m in 0..4u8 {
                 let s = Suite { kem: KemId::X25519, kdf: crate::refmodel::hpke_ref::KdfId::Sha256, aead: AeadId::ChaCha };
-                so.push(Case { sess: gen::cell_session(s, m, 17), pt: Bytes(b"pt".to_vec()), aad: Bytes(b"aad".to_vec()), faults: vec![Fault::SmallOrderRecipient { idx }], spy: false });
-                so.push(Case { sess: gen::cell_session(s, m, 17), pt: Bytes(b"pt".to_vec()), aad: Bytes(b"aad".to_vec()), faults: vec![Fault::SmallOrderEnc { idx }], spy: false });
+                so.push(Case { sess: gen::cell_session(s, m, 17), pt: Bytes(b"pt".to_vec()), aad: Bytes(b"aad".to_vec()), faults: vec![Fault::SmallOrderRecipient { idx }], spy: false, ctx_pos: None });
+                so.push(Case { sess: gen::cell_session(s, m, 17), pt: Bytes(b"pt".to_vec()), aad: Bytes(b"aad".to_vec()), faults: vec![Fault::SmallOrderEnc { idx }], spy: false, ctx_pos: None });
                 for keep in [0u8, 7, 15] {
-                    so.push(Case { sess: gen::cell_session(s, m, 17), pt: Bytes(b"pt".to_vec()), aad: Bytes(b"aad".to_vec()), faults: vec![Fault::SmallOrderEnc { idx }, Fault::Short { keep }], spy: false });
+                    so.push(Case { sess: gen::cell_session(s, m, 17), pt: Bytes(b"pt".to_vec()), aad: Bytes(b"aad".to_vec()), faults: vec![Fault::SmallOrderEnc { idx }, Fault::Short { keep }], spy: false, ctx_pos: None });
                 }
             }
         }
